@@ -128,3 +128,121 @@ func verif_C14_pcap_micro()     { c14Pcap(false, false) }
 func verif_C14_pcap_nano()      { c14Pcap(true, false) }
 func verif_C14_pcap_micro_cut() { c14Pcap(false, true) }
 func verif_C14_pcap_nano_cut()  { c14Pcap(true, true) }
+
+// ---- pcapng ----
+
+var c14FixedLens = false
+var c14NextLen = 0
+
+func c14Str(tag string) string {
+	var ln int
+	if c14FixedLens {
+		// truncation harnesses: one string of each length 1,2,3,0 (contents symbolic)
+		c14NextLen++
+		ln = c14NextLen % 4
+	} else {
+		ln = verifChoose(4) // lengths 0..3: every length mod 4, and the empty string
+	}
+	return string(verifBytes(tag, 3)[:ln])
+}
+
+func c14Ng(cut bool, withOpts bool) { c14NgTS(cut, withOpts, false) }
+
+func c14NgTS(cut bool, withOpts bool, symTS bool) {
+	c14FixedLens, c14NextLen = cut || symTS, 0
+	w := &c14Writer{}
+	intf := NgInterface{
+		Name:                c14Str("ifname"),
+		Description:         c14Str("ifdesc"),
+		LinkType:            layers.LinkType(verifU16("linktype")),
+		SnapLength:          uint32(verifU16("snaplen")) | 0x100,
+		TimestampResolution: 9,
+	}
+	wopts := NgWriterOptions{SectionInfo: NgSectionInfo{Application: c14Str("app"), Comment: c14Str("comment")}}
+	ngw, err := NewNgWriterInterface(w, intf, wopts)
+	verifAssert(err == nil, "writer created")
+	k := 1 + verifChoose(2)
+	type pkt struct {
+		data []byte
+		ci   gopacket.CaptureInfo
+		opts NgPacketOptions
+	}
+	pk := make([]pkt, k)
+	ends := make([]int, k)
+	verifAssert(ngw.Flush() == nil, "flush")
+	hdrEnd := len(w.b)
+	for i := range pk {
+		ln := verifChoose(4)
+		d := verifBytes("d", 3)[:ln]
+		// timestamps are concrete here (the /10^9 arithmetic of the reader is
+		// decided separately in verif_C14_ng_ts with a symbolic timestamp)
+		sec, nsec := int64(1700000000+i), int64(123456789*(i+1))
+		if symTS {
+			sec = int64(verifU32("sec") & 0x7fffffff)
+			nsec = int64(verifInt("nsec", 0, 999999999))
+		}
+		pk[i].data = d
+		pk[i].ci = gopacket.CaptureInfo{Timestamp: time.Unix(sec, nsec), CaptureLength: ln, Length: ln + int(verifU8("extra")), InterfaceIndex: 0}
+		if withOpts {
+			q := verifU32("queue")
+			dc := verifU64("drop")
+			pk[i].opts = NgPacketOptions{Comments: []string{c14Str("pcomment")}, Queue: &q, DropCount: &dc}
+		}
+		verifAssert(ngw.WritePacketWithOptions(pk[i].ci, pk[i].data, pk[i].opts) == nil, "packet written")
+		verifAssert(ngw.Flush() == nil, "flush")
+		ends[i] = len(w.b)
+	}
+	file := w.b
+	whole := k
+	if cut {
+		t := hdrEnd + verifChoose(len(file)-hdrEnd+1)
+		file = file[:t]
+		whole = 0
+		for i := range ends {
+			if ends[i] <= t {
+				whole = i + 1
+			}
+		}
+	}
+	r, err := NewNgReader(&c14Reader{data: file}, DefaultNgReaderOptions)
+	verifAssert(err == nil, "reader accepts the written section and interface")
+	verifAssert(r.LinkType() == intf.LinkType, "link type round-trips")
+	verifAssert(r.NInterfaces() == 1, "one interface")
+	ri, _ := r.Interface(0)
+	verifAssert(ri.Name == intf.Name, "interface name round-trips")
+	verifAssert(ri.Description == intf.Description, "interface description round-trips")
+	verifAssert(ri.SnapLength == intf.SnapLength, "snap length round-trips")
+	verifAssert(r.SectionInfo().Application == wopts.SectionInfo.Application, "section application string round-trips")
+	verifAssert(r.SectionInfo().Comment == wopts.SectionInfo.Comment, "section comment round-trips")
+	for i := 0; i < whole; i++ {
+		d, ci, o, err := r.ReadPacketDataWithOptions()
+		verifAssert(err == nil, "whole packet read without error")
+		verifAssert(len(d) == len(pk[i].data), "same data length")
+		for j := range d {
+			verifAssert(d[j] == pk[i].data[j], "same data bytes")
+		}
+		verifAssert(ci.CaptureLength == pk[i].ci.CaptureLength, "same capture length")
+		verifAssert(ci.Length == pk[i].ci.Length, "same length")
+		verifAssert(ci.InterfaceIndex == 0, "same interface")
+		verifAssert(ci.Timestamp.Unix() == pk[i].ci.Timestamp.Unix(), "same seconds")
+		verifAssert(ci.Timestamp.Nanosecond() == pk[i].ci.Timestamp.Nanosecond(), "same nanoseconds")
+		if withOpts {
+			verifAssert(len(o.Comments) == 1 && o.Comments[0] == pk[i].opts.Comments[0], "packet comment round-trips")
+			verifAssert(o.Queue != nil && *o.Queue == *pk[i].opts.Queue, "queue option round-trips")
+			verifAssert(o.DropCount != nil && *o.DropCount == *pk[i].opts.DropCount, "drop count round-trips")
+		}
+	}
+	_, _, err = r.ReadPacketData()
+	verifAssert(err != nil, "no packet beyond the complete ones")
+	verifAssert(err == io.EOF || err == io.ErrUnexpectedEOF, "then end-of-file or unexpected-end error")
+	if !cut {
+		verifAssert(err == io.EOF, "clean end of file after the last packet")
+	}
+	verifReached("ng-roundtrip")
+}
+
+func verif_C14_ng()          { c14Ng(false, false) }
+func verif_C14_ng_ts()       { c14NgTS(false, false, true) }
+func verif_C14_ng_opts()     { c14Ng(false, true) }
+func verif_C14_ng_cut()      { c14Ng(true, false) }
+func verif_C14_ng_opts_cut() { c14Ng(true, true) }
